@@ -1737,6 +1737,11 @@ LEVEL_TEXT = ("PARTIAL. Proved in Coq, for inputs of any size: a member statemen
               "exactly these declarators (anonymous_id_shared_by_its_declarators); "
               "base lists of any length report every base once, in order, with its flags and the class-key default access per base "
               "(base_clause_decodes_partial); the decision table of elaborated-type members (forward / friend / class / enum and the reject rules); "
+              "whole class definitions nested to any depth on the parser side (Parse/ClassDef.v: class statement, body under the class's own "
+              "default access, closing brace, what follows it, recursively): the tree written is the tree read, every member, forward "
+              "declaration, using-declaration, alias, enum and nested class under the access in force in its own class "
+              "(nested_classes_keep_their_own_access_partial and the *_tree_elements theorems; class_templates_decode_partial for one "
+              "template header in front); "
               "and, on the regenerated block machine, the access delivered with a member equals the backward-scan specification for every prefix of "
               "events and any nesting depth (access_in_force_partial). Tie: every model is extracted and run beside parse_string / the real method "
               "on valid and mutated token lists; the mirrored functions are AST-digest pinned; the block machine is run against the real callback "
@@ -1744,4 +1749,4 @@ LEVEL_TEXT = ("PARTIAL. Proved in Coq, for inputs of any size: a member statemen
               "the numbering of anonymous ids across definitions are decided by the AST-first class search whose expectation is built by the generator.")
 LEVEL_NOTE = ("Trusted: Coq kernel, atom vocabulary, extraction, driver, harness. The hand-written models mirror the Python code; their agreement "
               "is checked by the differential runs, not proved.")
-TECHNIQUE = "Coq proofs (whole member statements, constructors / destructors, base clauses, method tails: unbounded; backward-scan access specification over regenerated effect atoms) + differential runs + AST-digest pins + AST-first class-definition search"
+TECHNIQUE = "Coq proofs (whole member statements, constructors / destructors, base clauses, method tails: unbounded; backward-scan access specification over regenerated effect atoms; whole class definitions nested to any depth over a recursive statement-loop model) + differential runs + AST-digest pins + AST-first class-definition search"
